@@ -84,6 +84,184 @@ def width_sweep(which=None):
         out.append(("extra-value-text", "ClaimsSet", enc(M((I(1), T("i" * n)))), n))
     return [x for x in out if which is None or x[1] in which]
 
+
+# ================================================================= stored-value kinds (shared)
+VALUE_KINDS = [("nil", NULL), ("false", FALSE), ("true", TRUE), ("zero", I(0)), ("neg", I(-1)), ("u64max", I(2**64 - 1)), ("empty-bstr", B(b"")),
+               ("empty-text", T("")), ("empty-array", A()), ("empty-map", M()), ("tag", G(1, I(0))), ("float", ("f", 0x3ff8000000000000)),
+               ("array-of-nil", A(NULL)), ("map-of-nil", M((NULL, NULL))), ("tagged-nil", G(24, NULL))]
+def value_kind_cases(which):
+    """every uninterpreted (extra) entry position x every KIND of stored value x label class x carrier: the entry is
+    kept, in place, with exactly that value (nil, false, empty containers ... are values like any other), and the
+    encoding is a fixed point -> list of case dicts"""
+    out = []
+    def emit(ty, b, v, fam):
+        out.append(case("dec", ty, b, fam="extra-by-value-kind:" + fam, expect_re=r"ok .*" + re.escape(pyspec.show(v)) + r".*"))
+        out.append(case("rt", ty, b, fam="extra-by-value-kind-rt:" + fam, expect="ok %s T T" % b.hex()))
+    for kn, v in VALUE_KINDS:
+        if "Header" in which:
+            for lab in (I(0), I(8), I(100), I(-1), I(-65537), T(""), T("x")):
+                for others in ((), ((I(1), I(-7)),), ((I(4), B(b"kid")),)):
+                    for pos in range(2 if others else 1):
+                        ents = list(others); tail = [(lab, v), (I(200), I(7))]
+                        h = M(*(ents + (tail if pos == 0 else tail[::-1])))
+                        emit("Header", enc(h), v, "header:" + kn)
+                        emit("CoseSign1", enc(A(B(enc(h)), M(), NULL, B(b"s"))), v, "protected:" + kn)
+                        emit("CoseEncrypt", enc(A(B(b""), M(), NULL, A(A(B(b""), h, NULL)))), v, "recipient-unprotected:" + kn)
+                        emit("CoseSign", enc(A(B(b""), M(), NULL, A(A(B(b""), h, B(b"s"))))), v, "signer-unprotected:" + kn)
+                        emit("CoseMac0", enc(A(B(b""), M((I(7), A(B(b""), h, B(b"c")))), NULL, B(b"t"))), v, "countersigner-unprotected:" + kn)
+        if "CoseKey" in which:
+            for kty in (I(1), I(2), I(4), T("custom")):
+                for lab in (I(-1), I(-2), I(-4), I(-7), I(6), I(100), I(-65537), T("x")):
+                    k = M((I(1), kty), (lab, v), (I(-100), I(7)))
+                    emit("CoseKey", enc(k), v, "key:" + kn)
+                    emit("CoseKeySet", enc(A(M((I(1), I(4))), k)), v, "keyset-member:" + kn)
+        if "ClaimsSet" in which:
+            names = [I(x) for x in CLAIM_REG if not 1 <= x <= 7][:3] + [I(-65537), I(-70000), T(""), T("x")]
+            for name in names:
+                for others in ((), ((I(1), T("iss")),)):
+                    c = M(*(list(others) + [(name, v), (T("zz"), I(7))]))
+                    emit("ClaimsSet", enc(c), v, "claim:" + kn)
+    return out
+
+
+def wrapped_body_cases(rng):
+    """an accepted encoding WRAPPED in something (byte string, nested byte string, tag 24 / 55799 over either, one-element
+    array, map value, indefinite-length byte string) is not that structure: nothing looks through a wrapper"""
+    out = []
+    fixed = {"Header": b"\xa1\x01\x26", "CoseKey": b"\xa1\x01\x04", "CoseKeySet": b"\x81\xa1\x01\x04", "ClaimsSet": b"\xa1\x01\x61\x69",
+             "CoseKdfContext": b"\x84\x01\x83\xf6\xf6\xf6\x83\xf6\xf6\xf6\x82\x00\x40", "CoseSignature": b"\x83\x40\xa0\x41\x73",
+             "CoseRecipient": b"\x83\x40\xa0\xf6"}
+    bodies = [(ty, enc(gen_msg(rng, ty, 1))) for ty in TAGGED_TYPES] + sorted(fixed.items())
+    for ty, body in bodies:
+        bs = enc(B(body))
+        for name, w in (("bstr", bs), ("bstr-bstr", enc(B(bs))), ("tag24-bstr", head(6, 24) + bs), ("tag55799", head(6, 55799) + body),
+                        ("tag55799-bstr", head(6, 55799) + bs), ("array-1", b"\x81" + body), ("array-2", b"\x82" + body + body), ("map-value", b"\xa1\x00" + body),
+                        ("map-key", b"\xa1" + body + b"\x00"), ("indef-bstr", b"\x5f" + bs + b"\xff"), ("indef-array", b"\x9f" + body + b"\xff"),
+                        ("text-hex", enc(T(body.hex()))), ("tag24-array", head(6, 24) + b"\x81" + body)):
+            if name == "map-value" and ty in ("Header", "ClaimsSet"):      # that IS a map of this type, with one extra entry
+                out.append(case("dec", ty, w, fam="wrapped-body:" + name, expect_re=r"ok .*")); continue
+            out.append(case("dec", ty, w, fam="wrapped-body:" + name, expect_re=r"err:\w+"))
+            if ty in TAGGED_TYPES:
+                out.append(case("dectag", ty, w, fam="wrapped-body:" + name, expect_re=r"err:\w+"))
+                out.append(case("dectag", ty, head(6, MSG_TAG[ty]) + w, fam="wrapped-body-tagged:" + name, expect_re=r"err:\w+"))
+    return out
+
+
+# ================================================================= byte-string length boundaries (shared)
+BOUNDARY_LENS = [0, 1, 22, 23, 24, 25, 254, 255, 256, 257, 65534, 65535, 65536, 65537]
+def boundary_prots():
+    """protected headers (built, and decoded with retained bytes) whose encoding is EXACTLY each boundary length"""
+    out = []
+    for L in BOUNDARY_LENS:
+        if L == 0:
+            out.append((L, d_protected(None, D_EMPTY_HEADER), b"")); continue
+        for k in range(max(0, L - 8), L):
+            wire = enc(M((I(4), B(b"k" * k))))
+            if len(wire) == L and k > 0:
+                out.append((L, d_protected(None, d_header(kid=b"k" * k)), wire))
+                out.append((L, d_protected(wire, D_EMPTY_HEADER), wire))
+                break
+        else:
+            if L == 1: out.append((L, d_protected(b"\xa0", D_EMPTY_HEADER), b"\xa0"))
+    return out
+
+
+# ================================================================= built-header field populations (shared)
+def field_population_headers():
+    """all 2^7 populations of the typed header fields (IV together with Partial IV included: the builders refuse
+    that, the public fields do not) -> (description, encoded header map)"""
+    out = []
+    fields = [("alg", d_reg(1, -7)), ("crit", (d_reg(1, 1),)), ("ctype", d_reg(1, 60)), ("kid", b"kid"), ("iv", b"iv"), ("piv", b"piv"),
+              ("csigs", (d_signature(d_protected(None, D_EMPTY_HEADER), D_EMPTY_HEADER, b"cs"),))]
+    for mask in range(1, 128):
+        kw = {n: v for i, (n, v) in enumerate(fields) if mask >> i & 1}
+        for rest in ((), ((I(100), I(1)),)):
+            h = d_header(rest=rest, **kw)
+            out.append((h, enc(pyspec.header_map(h))))
+    return out
+
+def field_population_cases(which):
+    out = []
+    aad, pl, k = b"external aad", b"the payload", b"kk"
+    for h, pb in field_population_headers():
+        if "sign" in which:
+            ops = [A(T("protected"), h), A(T("payload"), B(pl)), A(T("create_signature"), B(aad), A(I(0), B(k)))]
+            want = k + pyspec.sig_structure("CoseSign1", pb, None, aad, pl)
+            out.append(case("build", "CoseSign1", enc(('a', ops)), fam="field-population:create_signature",
+                            check=lambda c, o, w=want: None if ("h" + w.hex()) in o else "signature created over other bytes than the Sig_structure of this header"))
+            sg = d_signature(d_protected(None, h), D_EMPTY_HEADER, b"")
+            ops = [A(T("protected"), h), A(T("payload"), B(pl)), A(T("add_created_signature"), sg, B(aad), A(I(0), B(k)))]
+            want = k + pyspec.sig_structure("CoseSignature", pb, pb, aad, pl)
+            out.append(case("build", "CoseSign", enc(('a', ops)), fam="field-population:add_created_signature",
+                            check=lambda c, o, w=want: None if ("h" + w.hex()) in o else "signature created over other bytes than the Sig_structure of this header"))
+        if "mac" in which:
+            for bt in ("CoseMac0", "CoseMac"):
+                ops = [A(T("protected"), h), A(T("payload"), B(pl)), A(T("create_tag"), B(aad), A(I(0), B(k)))]
+                want = k + pyspec.mac_structure(bt, pb, aad, pl)
+                out.append(case("build", bt, enc(('a', ops)), fam="field-population:create_tag",
+                                check=lambda c, o, w=want: None if ("h" + w.hex()) in o else "tag created over other bytes than the MAC_structure of this header"))
+        if "enc" in which:
+            for bt in ("CoseEncrypt0", "CoseEncrypt"):
+                ops = [A(T("protected"), h), A(T("create_ciphertext"), B(pl), B(aad), A(I(0), B(k)))]
+                want = k + bytes([len(pl) % 256]) + pl + pyspec.enc_structure(bt, pb, aad)
+                out.append(case("build", bt, enc(('a', ops)), fam="field-population:create_ciphertext",
+                                check=lambda c, o, w=want: None if ("h" + w.hex()) in o else "ciphertext created with other additional data than the Enc_structure of this header"))
+            ops = [A(T("protected"), h), A(T("create_ciphertext"), T("EncRecipient"), B(pl), B(aad), A(I(0), B(k)))]
+            want = k + bytes([len(pl) % 256]) + pl + pyspec.enc_structure("EncRecipient", pb, aad)
+            out.append(case("build", "CoseRecipient", enc(('a', ops)), fam="field-population:recipient.create_ciphertext",
+                            check=lambda c, o, w=want: None if ("h" + w.hex()) in o else "ciphertext created with other additional data than the Enc_structure of this header"))
+    return out
+
+
+# ================================================================= depth sweeps (shared)
+DEPTHS = (6, 7, 8, 9, 15, 16, 17, 31, 32, 33, 61, 62, 63, 64, 65, 66, 127, 128, 129, 200, 250, 252, 253, 254, 255, 256)
+def depth_sweep_cases(which):
+    """legal but deep nesting in every free-form (uninterpreted) position of every type, alone and inside each carrier,
+    around every plausible smaller recursion limit (ciborium's own is 256; the proved model decides each depth)"""
+    out = []
+    for d in DEPTHS:
+        deep = b"\x81" * d + b"\x00"
+        deepm = b"".join(b"\xa1\x00" for _ in range(d)) + b"\x00"
+        deept = b"\xc1" * d + b"\x00"
+        for inner in (deep, deepm, deept):
+            key = b"\xa2\x01\x04\x20" + inner
+            for ty, b in (("Header", b"\xa1\x18\x63" + inner), ("CoseKey", key), ("CoseKeySet", b"\x81" + key), ("CoseKeySet", b"\x82\xa1\x01\x04" + key),
+                          ("ClaimsSet", b"\xa1\x18\x63" + inner), ("ClaimsSet", b"\xa1\x61\x78" + inner), ("CoseKey", b"\xa2\x01\x04\x61\x78" + inner),
+                          ("CoseSign1", b"\x84\x40\xa1\x18\x63" + inner + b"\xf6\x40"), ("CoseEncrypt0", b"\x83" + enc(B(b"\xa1\x18\x63" + inner)) + b"\xa0\xf6"),
+                          ("CoseMac", b"\x85\x40\xa0\xf6\x40\x81\x83\x40\xa1\x18\x63" + inner + b"\xf6"),
+                          ("CoseSign", b"\x84\x40\xa0\xf6\x81\x83\x40\xa1\x18\x63" + inner + b"\x40"),
+                          ("Header", b"\xa1\x07\x83\x40\xa1\x18\x63" + inner + b"\x40")):
+                if ty not in which: continue
+                out.append(case("dec", ty, b, fam="depth-sweep:" + ty, key=(ty, b)))
+                out.append(case("rt", ty, b, fam="depth-sweep-rt:" + ty, key=(ty, b)))
+                if ty in TAGGED_TYPES:
+                    out.append(case("dectag", ty, head(6, MSG_TAG[ty]) + b, fam="depth-sweep-tagged:" + ty))
+    return out
+
+
+def protected_nesting_cases(api=False, ops=("dec",)):
+    """protected headers nested through counter-signatures 0..20 deep (the crate bounds this nesting; the proved model
+    carries the bound), in every form of the counter-signature parameter, non-empty at every level, reached through every
+    type and entry point: the bound is the same wherever the chain starts"""
+    out = []
+    for d in range(0, 21):
+        for form in ("single", "list", "mixed", "list2"):
+            for inner in (b"\xa0", b"\xa1\x01\x26"):
+                h = nested_header(d, form, inner)
+                carriers = [("Header", h), ("ProtectedHeader", enc(B(h))), ("CoseSignature", b"\x83" + enc(B(h)) + b"\xa0\x40"), ("CoseSignature", b"\x83\x40" + h + b"\x40"),
+                            ("CoseSign1", b"\x84" + enc(B(h)) + b"\xa0\xf6\x40"), ("CoseSign1", b"\x84\x40" + h + b"\xf6\x40"),
+                            ("CoseEncrypt0", b"\x83" + enc(B(h)) + b"\xa0\xf6"), ("CoseRecipient", b"\x83" + enc(B(h)) + b"\xa0\xf6"),
+                            ("CoseMac", b"\x85\x40\xa0\xf6\x40\x81\x83" + enc(B(h)) + b"\xa0\xf6"), ("CoseSign", b"\x84\x40\xa0\xf6\x81\x83" + enc(B(h)) + b"\xa0\x40"),
+                            ("CoseEncrypt", b"\x84\x40\xa0\xf6\x81\x84\x40\xa0\xf6\x81\x83" + enc(B(h)) + b"\xa0\xf6")]
+                for ty, b in carriers:
+                    for op in ops:
+                        out.append(case(op, ty, b, fam="base" if (api and op == "dec") else "protected-nesting-sweep:%s:%s" % (op, ty), key=(ty, b)))
+                    if api:
+                        out.append(case("decval", ty, b, fam="api-decode", key=(ty, b), impl_only=True))
+                    if "dec" in ops and ty in TAGGED_TYPES:
+                        out.append(case("dectag", ty, head(6, MSG_TAG[ty]) + b, fam="protected-nesting-sweep:dectag:" + ty))
+    return out
+
 # ================================================================= C16
 def label_palette():
     ints = sorted(set(x for x in LATTICE if -2**63 <= x < 2**63) | {2, 10, 22, 25, 100, 1000, -2, -10, -23, -26, -100, -1000,
@@ -534,6 +712,9 @@ def cases_C13(rng, tier):
     # every variable-length position filled with n well-formed entries (no CDDL upper bound on any of them)
     for name, ty, b, n in width_sweep(None):
         out.append(case("dec", ty, b, fam="width-sweep:" + name, **({"expect_re": r"ok .*"} if n >= 1 else {})))
+    out += wrapped_body_cases(rng)
+    out += depth_sweep_cases(("Header", "CoseKey", "CoseKeySet", "ClaimsSet", "CoseSign1", "CoseEncrypt0", "CoseMac", "CoseSign"))
+    out += protected_nesting_cases(api=True)
     return out
 
 def post_C13(cases, impl):
@@ -775,6 +956,26 @@ def cases_C03(rng, tier):
             want = k + pyspec.sig_structure("CoseSignature", pb, pb, aad, pl)
             out.append(case("build", "CoseSign", enc(('a', ops)), fam="product:" + opn,
                             check=lambda c, o, w=want: None if ("h" + w.hex()) in o else "signature created over other bytes than the Sig_structure"))
+    # every byte-string slot of the Sig_structure at every head-width boundary length, one slot at a time and in pairs
+    small = (d_protected(None, d_header(kid=b"k")), enc(M((I(4), B(b"k")))))
+    for ctx in pyspec.SIG_CTX:
+        for L in BOUNDARY_LENS:
+            for aad, pl in ((b"a" * L, b"p"), (b"a", b"p" * L), (b"a" * L, b"p" * L)):
+                for sign, sb in ((NULL, None), small):
+                    want = pyspec.sig_structure(ctx, small[1], sb, aad, pl)
+                    out.append(case("sigdata", ctx, enc(small[0]), enc(sign), aad, pl, fam="length-boundaries", expect="ok " + want.hex()))
+        for L, d, wire in boundary_prots():
+            out.append(case("sigdata", ctx, enc(d), enc(NULL), b"a", b"p", fam="length-boundaries:body", expect="ok " + pyspec.sig_structure(ctx, wire, None, b"a", b"p").hex()))
+            out.append(case("sigdata", ctx, enc(small[0]), enc(d), b"a", b"p", fam="length-boundaries:signer", expect="ok " + pyspec.sig_structure(ctx, small[1], wire, b"a", b"p").hex()))
+    for L in BOUNDARY_LENS:
+        m1 = A(small[0], D_EMPTY_HEADER, B(b"p" * L), B(b"sg")); m1d = A(small[0], D_EMPTY_HEADER, NULL, B(b"sg"))
+        w1 = pyspec.sig_structure("CoseSign1", small[1], None, b"aad", b"p" * L)
+        out.append(case("helperdesc", "sign1.tbs_data", enc(m1), b"aad", fam="length-boundaries:sign1.tbs_data", expect="ok " + w1.hex()))
+        out.append(case("helperdesc", "sign1.tbs_detached_data", enc(m1d), b"p" * L, b"aad", fam="length-boundaries:sign1.tbs_detached", expect="ok " + w1.hex()))
+        sigs = ('a', [d_signature(small[0], D_EMPTY_HEADER, b"s0")])
+        ws = pyspec.sig_structure("CoseSignature", small[1], small[1], b"aad", b"p" * L)
+        out.append(case("helperdesc", "sign.tbs_data", enc(A(small[0], D_EMPTY_HEADER, B(b"p" * L), sigs)), b"aad", b"\x00", fam="length-boundaries:sign.tbs_data", expect="ok " + ws.hex()))
+    out += field_population_cases(("sign",))
     return out
 
 def post_injective(cases, impl):
@@ -857,6 +1058,14 @@ def cases_C04(rng, tier):
                 m1 = enc(A(B(p), u, B(b"pl"), B(b"tg"), A(A(B(b"\xa0"), M(), NULL))), rng if style else None, style="nobignum")
                 out.append(case("helperhex", "mac0.verify_tag", m0, b"aad", fam="decoded:mac0.verify_tag", expect="ok 7467 " + pyspec.mac_structure("CoseMac0", p, b"aad", b"pl").hex()))
                 out.append(case("helperhex", "mac.verify_tag", m1, b"aad", fam="decoded:mac.verify_tag", expect="ok 7467 " + pyspec.mac_structure("CoseMac", p, b"aad", b"pl").hex()))
+    small = (d_protected(None, d_header(kid=b"k")), enc(M((I(4), B(b"k")))))
+    for ctx in pyspec.MAC_CTX:
+        for L in BOUNDARY_LENS:
+            for aad, pl in ((b"a" * L, b"p"), (b"a", b"p" * L), (b"a" * L, b"p" * L)):
+                out.append(case("macdata", ctx, enc(small[0]), aad, pl, fam="length-boundaries", expect="ok " + pyspec.mac_structure(ctx, small[1], aad, pl).hex()))
+        for L, d, wire in boundary_prots():
+            out.append(case("macdata", ctx, enc(d), b"a", b"p", fam="length-boundaries:protected", expect="ok " + pyspec.mac_structure(ctx, wire, b"a", b"p").hex()))
+    out += field_population_cases(("mac",))
     return out
 
 def cases_C05(rng, tier):
@@ -957,6 +1166,13 @@ def cases_C05(rng, tier):
                 out.append(case("helperhex", "encrypt.decrypt", enc(A(B(p), u, B(b"ct"), A())), b"aad", fam="decoded:encrypt.decrypt", expect="ok 6374 " + pyspec.enc_structure("CoseEncrypt", p, b"aad").hex()))
                 for rc in ("EncRecipient", "MacRecipient", "RecRecipient"):
                     out.append(case("helperhex", "recipient.decrypt", e0, tstr(rc), b"aad", fam="decoded:recipient.decrypt", expect="ok 6374 " + pyspec.enc_structure(rc, p, b"aad").hex()))
+    small = (d_protected(None, d_header(kid=b"k")), enc(M((I(4), B(b"k")))))
+    for ctx in pyspec.ENC_CTX:
+        for L in BOUNDARY_LENS:
+            out.append(case("encdata", ctx, enc(small[0]), b"a" * L, fam="length-boundaries", expect="ok " + pyspec.enc_structure(ctx, small[1], b"a" * L).hex()))
+        for L, d, wire in boundary_prots():
+            out.append(case("encdata", ctx, enc(d), b"a", fam="length-boundaries:protected", expect="ok " + pyspec.enc_structure(ctx, wire, b"a").hex()))
+    out += field_population_cases(("enc",))
     return out
 
 
@@ -1037,6 +1253,9 @@ def cases_C07(rng, tier):
                     out.append(case("dectag", ty, head(6, MSG_TAG[ty]) + b, fam="dec", key=(ty, head(6, MSG_TAG[ty]) + b)))
     for name, ty, b, n in width_sweep():
         out.append(case("rt", ty, b, fam="width-sweep:" + name, **({"expect_re": r"ok [0-9a-f]+ T T"} if n >= 1 else {})))
+    out += [c for c in value_kind_cases(("Header", "CoseKey", "ClaimsSet")) if c["line"].startswith("rt ")]
+    out += [c for c in depth_sweep_cases(("Header", "CoseKey", "CoseKeySet", "ClaimsSet", "CoseSign1", "CoseEncrypt0", "CoseMac", "CoseSign")) if not c["line"].startswith("dec ")]
+    out += protected_nesting_cases(ops=("rt",))
     return out
 
 def post_C07(cases, impl):
@@ -1101,6 +1320,10 @@ def cases_C08(rng, tier):
     # every variable-length position filled with n well-formed entries (no CDDL upper bound on any of them)
     for name, ty, b, n in width_sweep(("Header", "CoseSign1", "CoseMac0")):
         out.append(case("dec", ty, b, fam="width-sweep:" + name, **({"expect_re": r"ok .*"} if n >= 1 else {})))
+    out += value_kind_cases(("Header",))
+    out += [c for c in wrapped_body_cases(rng) if c["line"].split()[1] == "Header"]
+    out += depth_sweep_cases(("Header", "CoseSign1", "CoseEncrypt0", "CoseMac", "CoseSign"))
+    out += protected_nesting_cases()
     return out
 
 def post_groups(cases, impl):
@@ -1187,6 +1410,8 @@ def cases_C09(rng, tier):
     # every variable-length position filled with n well-formed entries (no CDDL upper bound on any of them)
     for name, ty, b, n in width_sweep(("CoseSign", "CoseMac", "CoseEncrypt", "CoseRecipient", "CoseSign1", "CoseMac0")):
         out.append(case("dec", ty, b, fam="width-sweep:" + name, **({"expect_re": r"ok .*"} if n >= 1 else {})))
+    out += [c for c in wrapped_body_cases(rng) if c["line"].split()[1] in MSG_TYPES]
+    out += [c for c in protected_nesting_cases() if c["line"].split()[1] in MSG_TYPES]
     return out
 
 # ================================================================= C10
@@ -1211,6 +1436,9 @@ def cases_C10(rng, tier):
     # every variable-length position filled with n well-formed entries (no CDDL upper bound on any of them)
     for name, ty, b, n in width_sweep(("CoseKey", "CoseKeySet")):
         out.append(case("dec", ty, b, fam="width-sweep:" + name, **({"expect_re": r"ok .*"} if n >= 1 else {})))
+    out += value_kind_cases(("CoseKey",))
+    out += [c for c in wrapped_body_cases(rng) if c["line"].split()[1] in ("CoseKey", "CoseKeySet")]
+    out += depth_sweep_cases(("CoseKey", "CoseKeySet"))
     return out
 
 # ================================================================= C18
@@ -1251,6 +1479,9 @@ def cases_C18(rng, tier):
     # every variable-length position filled with n well-formed entries (no CDDL upper bound on any of them)
     for name, ty, b, n in width_sweep(("ClaimsSet", "CoseKdfContext")):
         out.append(case("dec", ty, b, fam="width-sweep:" + name, **({"expect_re": r"ok .*"} if n >= 1 else {})))
+    out += value_kind_cases(("ClaimsSet",))
+    out += [c for c in wrapped_body_cases(rng) if c["line"].split()[1] in ("ClaimsSet", "CoseKdfContext")]
+    out += depth_sweep_cases(("ClaimsSet",))
     return out
 
 # ================================================================= C11
@@ -1489,13 +1720,28 @@ def cases_C12(rng, tier):
                 km = enc(('m', es))
                 out.append(case("dec", "CoseKeySet", b"\x81" + km, fam="dup-in-keyset", expect_re=r"err:\w+"))
                 out.append(case("dec", "CoseKeySet", b"\x82" + enc(M((I(1), I(4)))) + km, fam="dup-in-keyset", expect_re=r"err:\w+"))
+    out += [c for c in value_kind_cases(("Header", "CoseKey", "ClaimsSet")) if c["line"].startswith("dec ")]
+    # labels that are DISTINCT but look alike (integer n and text "n", case variants, -1 and "−1" ...): two such entries
+    # in one map are not duplicates, whatever the map and carrier
+    alike = [(I(12), T("12")), (T("12"), I(12)), (I(-1), T("-1")), (I(100), T("100")), (T("a"), T("A")), (T(""), I(0)), (I(8), T("8")), (T("007"), I(7 + 93)),
+             (I(-70000), T("-70000")), (T("1000"), I(1000)), (I(24), T("24")), (T("x"), T("x ")), (I(100), I(-101)), (I(255), I(256))]
+    for a, b in alike:
+        out.append(case("dec", "Header", enc(M((a, I(1)), (b, I(2)))), fam="alike-labels:header", expect_re=r"ok .*"))
+        out.append(case("dec", "CoseSign1", enc(A(B(enc(M((a, I(1)), (b, I(2))))), M(), NULL, B(b""))), fam="alike-labels:protected", expect_re=r"ok .*"))
+        out.append(case("dec", "CoseEncrypt", enc(A(B(b""), M(), NULL, A(A(B(b""), M((a, I(1)), (b, I(2))), NULL)))), fam="alike-labels:recipient", expect_re=r"ok .*"))
+        out.append(case("dec", "CoseKey", enc(M((I(1), I(4)), (a, I(1)), (b, I(2)))), fam="alike-labels:key", expect_re=r"ok .*"))
+        out.append(case("dec", "CoseKeySet", enc(A(M((I(1), I(4)), (a, I(1)), (b, I(2))))), fam="alike-labels:keyset", expect_re=r"ok .*"))
+        out.append(case("rt", "CoseKey", enc(M((I(1), I(4)), (a, I(1)), (b, I(2)))), fam="alike-labels:key-rt", expect_re=r"ok [0-9a-f]+ T T"))
+        ca, cb = [(I(-70000 - abs(x[1])) if x[0] == 'i' else x) for x in (a, b)]
+        if ca != cb:
+            out.append(case("dec", "ClaimsSet", enc(M((ca, I(1)), (cb, I(2)))), fam="alike-labels:claims", expect_re=r"ok .*"))
     return out
 
 # ================================================================= C20
 def cases_C20(rng, tier):
     out = []
     pool = [I(x) for x in (-1, -2, -3, -4, -24, -25, -256, -257, -65537, 6, 7, 23, 24, 255, 256, 65535, 65536, 2**32, 2**63 - 1, -2**63)] \
-        + [T(t) for t in ("", "a", "b", "aa", "z" * 23, "y" * 24, "é")]
+        + [T(t) for t in ("", "a", "b", "aa", "z" * 23, "y" * 24, "é", "1", "2", "12", "-1", "007", "1000", "24", "-25")]
     def chk_sorted(order):
         def f(c, o):
             m = re.fullmatch(r"ok (\S+) ok ([0-9a-f]+)", o)
@@ -1702,6 +1948,31 @@ def cases_C19(rng, tier):
         out.append(case("build", "Header", enc(A(A(T(a), B(b"\x01")), A(T(b), B(b"\x02")))), fam="iv-clears",
                         check=lambda c, o: None if re.search(r",h02,h,|,h,h02,", o) else "both IV fields populated or wrong one kept"))
     out += combos.builder_pair_cases(case, builder_ops, BUILDERS, 1)
+    # argument-emptiness products: every call of a short history with every subset of its byte-string arguments
+    # empty at once (a constructor or setter must record exactly what it was given, empty values included)
+    for bt in BUILDERS:
+        for _ in range(Q(tier, 40, 300)):
+            ops = builder_ops(rng, bt, rng.choice([1, 2, 3]))
+            for oi, op in enumerate(ops):
+                idx = [i for i, a in enumerate(op[1]) if i > 0 and a[0] == 'b']
+                if len(idx) < 2 or len(idx) > 4: continue
+                for mask in range(1, 2 ** len(idx)):
+                    args = list(op[1])
+                    for bit, i in enumerate(idx):
+                        if mask >> bit & 1: args[i] = B(b"")
+                    v = list(ops); v[oi] = ('a', args)
+                    out.append(case("build", bt, enc(('a', v)), fam="arg-emptiness:" + bt, may_panic=True))
+    for curve in CURVES:
+        for x in (b"", b"x"):
+            for y in (b"", b"y"):
+                for dd in (b"", b"d"):
+                    for tail in ([], [A(T("key_id"), B(b"kid"))], [A(T("param"), I(-70000), B(b""))]):
+                        out.append(case("build", "CoseKey", enc(('a', [A(T("new_ec2_priv_key"), I(curve), B(x), B(y), B(dd))] + tail)), fam="key-constructor-emptiness", may_panic=True))
+                    out.append(case("build", "CoseKey", enc(A(A(T("new_ec2_pub_key"), I(curve), B(x), B(y)))), fam="key-constructor-emptiness", may_panic=True))
+                for sg in (TRUE, FALSE):
+                    out.append(case("build", "CoseKey", enc(A(A(T("new_ec2_pub_key_y_sign"), I(curve), B(x), sg))), fam="key-constructor-emptiness", may_panic=True))
+    for k in (b"", b"k"):
+        out.append(case("build", "CoseKey", enc(A(A(T("new_symmetric_key"), B(k)))), fam="key-constructor-emptiness", may_panic=True))
     return out
 
 def cases_C06(rng, tier):
@@ -1777,6 +2048,7 @@ def cases_C06(rng, tier):
             ct = k + bytes([len(pl) % 256]) + pl + want
             out.append(case("buildrt", bt, enc(('a', ops)), tg, *args, fam=bt,
                             **({"expect": "fail"} if fail else {"check": (lambda cc, o, w=want, ctt=ct: None if o.endswith(" %s %s" % (ctt.hex(), w.hex())) else "decrypt did not receive (ciphertext, additional data given at creation)")})))
+    out += field_population_cases(("sign", "mac", "enc"))
     return out
 
 # ================================================================= C02
